@@ -360,7 +360,7 @@ class ScriptGen:
         F = self.F
         bs = self.bools(D)
         w = [5, 1.5 if bs else 0, 2 if depth > 0 and F.logic else 0, 1 if depth > 0 and F.logic else 0,
-             0.3, 0.5 if F.calls and allow_calls and depth > 0 else 0,
+             0.6, 0.5 if F.calls and allow_calls and depth > 0 else 0,
              0.5 if F.builtins else 0]
         k = t.weighted(w, "bool")
         if k == 0:
@@ -379,6 +379,11 @@ class ScriptGen:
         if k == 3:
             return Not(self.g_bool(D, depth - 1, counters, allow_calls))
         if k == 4:
+            if depth > 0 and F.logic and t.chance(0.5, "boolcmp"):
+                # comparing two truth values: (a < b) == False, (a < b) != (c > d)
+                other = Const(bool(t.draw(2, "bc2"))) if t.chance(0.5, "bcconst") else \
+                    self.g_bool(D, depth - 1, counters, allow_calls)
+                return Cmp(self.pick(["==", "!="], "bcop"), self.g_bool(D, depth - 1, counters, allow_calls), other)
             return Const(bool(t.draw(2, "bc")))
         if k == 5:
             return self.ucall("<func>isbig", [self.g_num(D, depth - 1, counters)])
